@@ -47,3 +47,12 @@ Theorem c18_ledger_known_kinds : forall e, known_env e -> forall progs, wf_progs
   forall t f, n_pending (c_trace (exec e (init progs) sched)) = 0%Z -> chk_C08 e (c_trace (final_step e (exec e (init progs) sched) t f)) = true.
 Proof. intros e He progs Hp sched Hw. split; [exact (known_C08_run e He progs Hp sched Hw)|exact (known_C08_final e He progs Hp sched Hw)]. Qed.
 Print Assumptions c18_ledger_known_kinds.
+
+(** the owning wrapper over an arbitrary iterator: the ledger stays exact when the wrapped iterator panics
+    at any call and when closures panic *)
+From OCI.proofs Require Import IterLedger.
+Theorem c18_ledger_wrapped_iterator : forall e, iter_env e -> forall progs, wf_progs progs -> forall sched,
+  nowrap (c_labels (exec e (init progs) sched)) ->
+  chk_C08 e (c_trace (exec e (init progs) sched)) = true.
+Proof. exact iter_C08_run. Qed.
+Print Assumptions c18_ledger_wrapped_iterator.
